@@ -35,6 +35,8 @@ type FuncContract struct {
 	HasMod    bool
 	Modifies  []SExpr
 	LoopInv   map[int][]*Clause
+	LoopAssume map[int][]*Clause // assumed (unchecked, reported) facts at a loop head: loop n assume label: P
+	LoopStep  map[int][]*Clause // per-iteration postconditions: loop n step label: P (iter(e) = e at the start of the iteration)
 	InlineLoopInv []*Clause // invariants for loops of callees expanded in place: loop callee[#k].n invariant
 	LoopMod   map[int][]SExpr
 	CallAsserts []*Clause
@@ -218,7 +220,7 @@ func (cs *Contracts) parseFile(file, pkg string) error {
 			if kw != "iface" && rest != "*" {
 				name = qualifyFuncName(rest, pkg)
 			}
-			fc := &FuncContract{Name: name, Pkg: pkg, LoopInv: map[int][]*Clause{}, LoopMod: map[int][]SExpr{}, File: file, Line: rl.line}
+			fc := &FuncContract{Name: name, Pkg: pkg, LoopInv: map[int][]*Clause{}, LoopStep: map[int][]*Clause{}, LoopAssume: map[int][]*Clause{}, LoopMod: map[int][]SExpr{}, File: file, Line: rl.line}
 			curMon = nil
 			if kw == "iface" {
 				if _, dup := cs.Ifaces[name]; dup {
@@ -314,6 +316,21 @@ func (cs *Contracts) parseFile(file, pkg string) error {
 				} else {
 					cur.LoopInv[n] = append(cur.LoopInv[n], c)
 				}
+			case "assume":
+				c, err := mkClause("loopassume", tail, rl.line)
+				if err != nil {
+					return err
+				}
+				c.Loop = n
+				cur.LoopAssume[n] = append(cur.LoopAssume[n], c)
+				cur.Notes = append(cur.Notes, fmt.Sprintf("ASSUMED at the head of loop %d of %s (not checked): %s", n, cur.Name, c.Text))
+			case "step":
+				c, err := mkClause("step", tail, rl.line)
+				if err != nil {
+					return err
+				}
+				c.Loop = n
+				cur.LoopStep[n] = append(cur.LoopStep[n], c)
 			case "modifies":
 				l, err := parseList(tail, rl.line)
 				if err != nil {
@@ -329,21 +346,25 @@ func (cs *Contracts) parseFile(file, pkg string) error {
 				return fmt.Errorf("%s:%d: at outside func", file, rl.line)
 			}
 			f := strings.Fields(rest)
-			if len(f) < 4 || f[0] != "call" || f[2] != "assert" {
-				return fmt.Errorf("%s:%d: expected 'at call <callee> assert <expr>'", file, rl.line)
+			if len(f) < 4 || f[0] != "call" || (f[2] != "assert" && f[2] != "assume") {
+				return fmt.Errorf("%s:%d: expected 'at call <callee> assert|assume <expr>'", file, rl.line)
 			}
+			kw := f[2]
 			callee := f[1]
 			k := 0
 			if idx := strings.LastIndex(callee, "#"); idx >= 0 {
 				k, _ = strconv.Atoi(callee[idx+1:])
 				callee = callee[:idx]
 			}
-			i := strings.Index(rest, " assert ")
-			c, err := mkClause("assert", rest[i+len(" assert "):], rl.line)
+			i := strings.Index(rest, " "+kw+" ")
+			c, err := mkClause(kw, rest[i+len(" "+kw+" "):], rl.line)
 			if err != nil {
 				return err
 			}
 			c.Callee, c.CallK = callee, k
+			if kw == "assume" {
+				cur.Notes = append(cur.Notes, fmt.Sprintf("ASSUMED at call %s in %s (not checked): %s", f[1], cur.Name, c.Text))
+			}
 			cur.CallAsserts = append(cur.CallAsserts, c)
 		case "inline":
 			cur.Inline = true
